@@ -17,5 +17,8 @@ env = dict(os.environ, VERIF_REPO=repo, VERIF_SCRATCH=base + "/scratch", VERIF_E
 here = os.path.dirname(os.path.dirname(os.path.abspath(__file__)))
 p = subprocess.run([os.path.join(here, "check"), prop] + extra, env=env, cwd=here)
 print(f"SEEDTEST prop={prop} patch={patch} exit={p.returncode}")
-shutil.rmtree(base, ignore_errors=True)
+if not os.environ.get('SEED_KEEP'):
+    shutil.rmtree(base, ignore_errors=True)
+else:
+    shutil.rmtree(base + '/scratch/kani-target', ignore_errors=True); shutil.rmtree(base + '/scratch/replay-target', ignore_errors=True); shutil.rmtree(base + '/scratch/native-target', ignore_errors=True)
 sys.exit(p.returncode)
